@@ -8,6 +8,7 @@ import (
 	"github.com/goghcrow/yae/parser/oper"
 	"github.com/goghcrow/yae/parser/pos"
 	"github.com/goghcrow/yae/parser/token"
+	"github.com/goghcrow/yae/verifhook"
 )
 
 func NewLexer(ops []oper.Operator) *lexer {
@@ -18,6 +19,7 @@ func NewLexer(ops []oper.Operator) *lexer {
 
 // Lex 表达式通常都很短, 这里没有要做成语法制导按需lex, e.g. chan *token.Token
 func (l *lexer) Lex(input string) []*token.Token {
+	verifhook.Touch(l, true, "lexer.Lex")
 	l.input = []rune(input)
 	l.Pos = pos.Pos{}
 	var toks []*token.Token
@@ -54,6 +56,7 @@ func (l *lexer) skipSpace() {
 }
 
 func (l *lexer) next() *token.Token {
+	verifhook.Step("lexer.next")
 	l.skipSpace()
 	if l.Idx >= len(l.input) {
 		return EOF
